@@ -12,6 +12,7 @@ EXPLANATION = (
     "the allocation. It does not decide which transactions recovery then exposes."
     " C17.2 reports explicitly when Wal::append no longer positions the file cursor itself."
     " C17.6 (shared with C02.4 / C07.3): every log scanner empties its buffer of pending records in the BeginTx arm, so the records of a transaction whose tail was cut are not replayed inside the next committed transaction."
+    " C17.7: an end-of-log position cached in the Wal handle by Wal::open derives from WalReader::valid_len or from a file length read after the truncation point."
 )
 
 NEXT = "nervusdb_storage::wal::WalReader::next_record"
@@ -130,6 +131,7 @@ def run(ctx):
     from .c02 import scanner_rule
     ctx.rule("C17.6", "log scanners discard the records buffered from a torn transaction when the next BeginTx arrives (recovers exactly the committed transactions after a tail cut inside a transaction)")
     scanner_rule(ctx, "C17.6")
+    open_cursor_rule(ctx)
     ctx.rule("C17.4", "a short read (UnexpectedEof) in the log reader ends the log: its error arm tests the error kind and can return Ok(None)")
     b = ctx.body(NEXT)
     memo = {}
@@ -245,3 +247,40 @@ def run(ctx):
     reads_cursor = any(st[0] == "a" and any(isinstance(p_, list) and p_[0] == "f" and p_[2] == "offset" for pl in ([st[2][1][1]] if st[2][0] == "use" and st[2][1][0] in ("c", "m") else []) for p_ in pl[1]) for blk in vb.blocks for st in blk["s"])
     ctx.instance("C17.5", "valid_len returns the reader cursor=%s" % reads_cursor)
     ctx.oblige(reads_cursor, "C17.5", "valid_len:not-from-cursor", "valid_len no longer derives from the reader's record cursor", vb.file)
+
+
+WAL_OPEN = "nervusdb_storage::wal::Wal::open"
+WAL_ADT = "nervusdb_storage::wal::Wal"
+
+
+def open_cursor_rule(ctx, rid="C17.7"):
+    """an end-of-log position kept in the log handle is measured after the tail was cut off (or taken from valid_len)"""
+    from ..mirutil import backward_slice
+    F = ctx.facts
+    ctx.rule(rid, "any integer stored in the Wal handle by Wal::open (a cached end-of-log position) derives from WalReader::valid_len, or from a file length read "
+             "that can no longer be followed by the truncation: a length measured before the garbage tail is cut off positions the next append behind a hole")
+    b = ctx.body(WAL_OPEN)
+    cuts = [c.bb for c in b.calls() if c.name.endswith("::File::set_len")]
+    n = 0
+    for bi, blk in enumerate(b.blocks):
+        if b.is_cleanup(bi):
+            continue
+        for st in blk["s"]:
+            if not (st[0] == "a" and st[2][0] == "agg" and st[2][1] == "adt" and st[2][2] == WAL_ADT):
+                continue
+            for name, op in zip(st[2][5], st[2][4]):
+                l = op_local(op)
+                if l is None or b.local_ty(l) not in ("u64", "usize"):
+                    continue
+                n += 1
+                calls, _ = backward_slice(b, l, depth=12)
+                lens = [c for c in calls if c.name.endswith(("::metadata", "::Metadata::len", "::stream_position", "::seek"))]
+                from_valid = any(c.name.endswith("::valid_len") for c in calls)
+                early = [c for c in lens if any(x in b.reachable([c.bb]) for x in cuts)]
+                ok = (from_valid and not lens) or (bool(lens) and not early) or (not lens and not from_valid and False)
+                ctx.instance(rid, "Wal::open stores `%s`: from valid_len=%s, file-length reads before the truncation=%d" % (name, from_valid, len(early)))
+                ctx.oblige(ok, rid, "%s:open:%s:measured-before-truncation" % (rid, name),
+                           "Wal::open keeps `%s` from a file length read before the torn tail is cut off (or from neither valid_len nor a file length): the next "
+                           "append seeks past the end of the truncated file and leaves a zero-filled hole, which ends the log at the next open" % name,
+                           "%s:%d" % (b.file, b.line_of_block(bi)))
+    ctx.instance(rid, "integer fields stored in the Wal handle by open: %d" % n)
